@@ -94,6 +94,21 @@ def apply(toks, au, opts):
             out += _call("vx_random_range_incl", [inner[:z], inner[z + 3:]], t.ws)
             i = k + 1
             continue
+        # IT.collect::<std::result::Result<Vec<_>, _>>()  ->  IT.vx_collect_results()
+        #   (collecting an iterator of Results: Ok(all items in order) if every item is Ok, else the first Err)
+        if is_p(toks[i], ".") and is_id(toks[i + 1], "collect") and texts(toks, i + 2, 3) == [":", ":", "<"]:
+            pat = ["std", ":", ":", "result", ":", ":", "Result", "<", "Vec", "<", "_", ">", ",", "_", ">", ">", "(", ")"]
+            pat2 = ["Result", "<", "Vec", "<", "_", ">", ",", "_", ">", ">", "(", ")"]
+            for pp in (pat, pat2):
+                if texts(toks, i + 5, len(pp)) == pp:
+                    au.note("R", "IT.collect::<Result<Vec<_>, _>>() -> IT.vx_collect_results()")
+                    out += [toks[i], Tok("id", "vx_collect_results", ""), Tok("p", "(", ""), Tok("p", ")", "")]
+                    i += 5 + len(pp)
+                    break
+            else:
+                out.append(toks[i])
+                i += 1
+            continue
         # X.to_vec()  ->  vx_slice_to_vec(X)
         if is_p(t, ".") and is_id(toks[i + 1], "to_vec") and texts(toks, i + 2, 2) == ["(", ")"]:
             s = _expr_start(out)
@@ -152,6 +167,17 @@ def apply(toks, au, opts):
             if "fn" in pre:
                 au.note("R", f"inner const {toks[q+1].text} -> let")
                 toks[q] = Tok("id", "let", toks[q].ws)
+                # a literal-valued inner const used as an array length: `[E; NAME]` needs a constant, so the literal is
+                # written there (exact: const substitution)
+                e = q
+                while not is_p(toks[e], ";"):
+                    e += 1
+                if is_p(toks[e - 2], "=") and toks[e - 1].kind == "num":
+                    nm, lit = toks[q + 1].text, toks[e - 1].text
+                    for z in range(e + 1, len(toks) - 2):
+                        if is_p(toks[z], ";") and is_id(toks[z + 1], nm) and is_p(toks[z + 2], "]"):
+                            au.note("R", f"array length {nm} -> {lit}")
+                            toks[z + 1] = Tok("num", lit, toks[z + 1].ws)
     # Instant::now() <= X   ->  Instant::now().vx_le(&X)     (comparison on a shimmed clock type; recipe opt instant_le)
     if opts.get("instant_le"):
         while True:
